@@ -395,13 +395,13 @@ def normalize_url(
     # Quoting
     if user:
         if quoted:
-            user = safely_quote(user)
+            user = safely_quote(safely_unquote_auth_item(user))
         else:
             user = safely_unquote_auth_item(user)
 
     if password:
         if quoted:
-            password = safely_quote(password)
+            password = safely_quote(safely_unquote_auth_item(password))
         else:
             password = safely_unquote_auth_item(password)
 
@@ -411,14 +411,14 @@ def normalize_url(
         path = safely_unquote_path(path)
 
     if quoted:
-        qsl = safely_quote_qsl(qsl)
+        qsl = safely_quote_qsl(safely_unquote_qsl(qsl))
     else:
         qsl = safely_unquote_qsl(qsl)
 
     query = safe_serialize_qsl(qsl)
 
     if quoted:
-        fragment = safely_quote(fragment)
+        fragment = safely_quote(safely_unquote_fragment(fragment))
     else:
         fragment = safely_unquote_fragment(fragment)
 
